@@ -310,6 +310,7 @@ theorem binv_sendNow {w : RespW} (h : BInv w.buf) : BInv w.sendNow.buf := by
 theorem binv_step {w : RespW} (h : BInv w.buf) (e : HEv) : BInv (w.step e).buf := by
   cases e with
   | setCT ct => exact h
+  | setCL n => exact h
   | writeHeader code =>
     simp only [RespW.step]
     split
@@ -383,5 +384,82 @@ example : (respMw 4 5 [.setCT (asciiB "text/event-stream; charset=utf-8"), .writ
 
 example : ((fresh 10 4).writeAll [asciiB "ab", asciiB "cdef", asciiB "gh"]).1.contents = asciiB "abcdefgh" ∧
     ((fresh 10 4).writeAll [asciiB "ab", asciiB "cdef", asciiB "gh"]).1.mem = asciiB "abcd" := by decide
+
+/-! ### the handler's Content-Length -/
+
+theorem sendNow_cl (w : RespW) : w.sendNow.cl = w.cl := by
+  unfold RespW.sendNow; rfl
+
+theorem send_cl (w : RespW) : w.send.1.cl = w.cl := by
+  unfold RespW.send
+  split
+  · rfl
+  · split
+    · rfl
+    · exact sendNow_cl w
+
+theorem step_cl (w : RespW) (e : HEv) :
+    (w.step e).cl = w.cl ∨ ∃ n, e = .setCL n ∧ (w.step e).cl = some n := by
+  cases e with
+  | setCL n => exact Or.inr ⟨n, rfl, rfl⟩
+  | setCT ct => exact Or.inl rfl
+  | writeHeader code =>
+    left
+    simp only [RespW.step]
+    split
+    · rfl
+    · split
+      · rfl
+      · split
+        · rw [send_cl]
+        · rfl
+  | write data =>
+    left
+    simp only [RespW.step]
+    split <;> rfl
+  | flush =>
+    left
+    simp only [RespW.step]
+    split <;> rfl
+  | hijack => exact Or.inl rfl
+  | panicAbort => exact Or.inl rfl
+
+theorem foldl_cl (evs : List HEv) (w : RespW) :
+    (evs.foldl RespW.step w).cl = w.cl ∨ ∃ n, HEv.setCL n ∈ evs ∧ (evs.foldl RespW.step w).cl = some n := by
+  induction evs generalizing w with
+  | nil => exact Or.inl rfl
+  | cons e rest ih =>
+    simp only [List.foldl_cons]
+    rcases ih (w.step e) with h | ⟨n, hn, h⟩
+    · rcases step_cl w e with h' | ⟨n, he, h'⟩
+      · exact Or.inl (h.trans h')
+      · exact Or.inr ⟨n, by rw [he]; exact List.mem_cons_self, h.trans h'⟩
+    · exact Or.inr ⟨n, List.mem_cons_of_mem _ hn, h⟩
+
+/-- The response-buffering middleware never invents or rewrites a `Content-Length`: whatever the wrapped handler
+    does (informational responses, event streams, hijack, flushes, writes before the header, overflow, panic), the
+    value in the header map handed to the client-side writer is one the handler itself set, or none. (So the
+    announced length of a HEAD answer, which has no body to count, reaches the client as the target sent it.) -/
+theorem C14_content_length_untouched (mm mb : Nat) (evs : List HEv) :
+    (respMw mm mb evs).cl = none ∨ ∃ n, HEv.setCL n ∈ evs ∧ (respMw mm mb evs).cl = some n := by
+  unfold respMw
+  simp only
+  have key := foldl_cl (splitPanic evs).1 { buf := { maxBytes := mb, maxMem := mm } }
+  have hsub : ∀ n, HEv.setCL n ∈ (splitPanic evs).1 → HEv.setCL n ∈ evs := by
+    intro n hn
+    unfold splitPanic at hn
+    exact (List.takeWhile_sublist _).subset hn
+  split
+  · simp only
+    rcases key with h | ⟨n, hn, h⟩
+    · exact Or.inl h
+    · exact Or.inr ⟨n, hsub n hn, h⟩
+  · simp only
+    split
+    · rw [send_cl]
+      rcases key with h | ⟨n, hn, h⟩
+      · exact Or.inl h
+      · exact Or.inr ⟨n, hsub n hn, h⟩
+    · exact Or.inl rfl
 
 end KamalProxy.C14
